@@ -42,6 +42,8 @@
 #include "celeritas/global/alongstep/AlongStepNeutralAction.hh"
 #include "celeritas/global/alongstep/AlongStepUniformMscAction.hh"
 #include "celeritas/grid/ValueGridBuilder.hh"
+#include "celeritas/io/ImportModel.hh"
+#include "celeritas/io/ImportPhysicsTable.hh"
 #include "celeritas/grid/ValueGridType.hh"
 #include "celeritas/mat/MaterialParams.hh"
 #include "celeritas/phys/CutoffParams.hh"
@@ -675,7 +677,26 @@ enum class AlongStep
     linear_fluct,  // + energy loss fluctuations
     field,  // AlongStepUniformMscAction with a uniform field, no msc
     field_fluct,
+    linear_msc,  // general linear + Urban MSC (synthetic transport cross section)
+    linear_msc_fluct,
+    field_msc,  // uniform field + Urban MSC
+    field_msc_fluct,
 };
+inline bool has_msc(AlongStep a)
+{
+    return a == AlongStep::linear_msc || a == AlongStep::linear_msc_fluct
+           || a == AlongStep::field_msc || a == AlongStep::field_msc_fluct;
+}
+inline bool has_fluct(AlongStep a)
+{
+    return a == AlongStep::linear_fluct || a == AlongStep::field_fluct
+           || a == AlongStep::linear_msc_fluct || a == AlongStep::field_msc_fluct;
+}
+inline bool has_field(AlongStep a)
+{
+    return a == AlongStep::field || a == AlongStep::field_fluct || a == AlongStep::field_msc
+           || a == AlongStep::field_msc_fluct;
+}
 
 struct LoopConfig
 {
@@ -693,6 +714,7 @@ struct LoopConfig
     bool apply_post_interaction_cuts{true};
     bool integral_xs{false};
     double field_tesla{1.0};
+    double msc_scaled_xs{20.0};  // MeV^2/cm: transport mfp = E^2 / this
     bool status_checker{false};
     unsigned max_streams{1};
     unsigned rng_seed{20220511};
@@ -924,26 +946,50 @@ inline std::unique_ptr<LoopProblem> make_loop_problem(LoopConfig const& cfg)
 
         // along-step
         std::shared_ptr<CoreStepActionInterface const> along;
-        switch (cfg.along)
+        std::shared_ptr<UrbanMscParams const> msc;
+        if (has_msc(cfg.along))
         {
-            case AlongStep::neutral:
-                along = std::make_shared<AlongStepNeutralAction>(action_reg->next_id());
-                break;
-            case AlongStep::linear:
-            case AlongStep::linear_fluct:
-                along = AlongStepGeneralLinearAction::from_params(
-                    action_reg->next_id(), *P->material, *P->particle, nullptr,
-                    cfg.along == AlongStep::linear_fluct);
-                break;
-            case AlongStep::field:
-            case AlongStep::field_fluct: {
-                UniformFieldParams fp;
-                fp.field = {0, 0, cfg.field_tesla * units::tesla};
-                along = AlongStepUniformMscAction::from_params(
-                    action_reg->next_id(), *P->material, *P->particle, fp, nullptr,
-                    cfg.along == AlongStep::field_fluct);
-                break;
+            // synthetic Urban MSC data: scaled transport cross section xs * E^2 [MeV^2/cm],
+            // constant in "mat" (lambda_tr ~ E^2), negligible in the vacuum
+            std::vector<ImportMscModel> mm;
+            for (int pdg : {11, -11})
+            {
+                ImportMscModel m;
+                m.particle_pdg = pdg;
+                m.model_class = ImportModelClass::urban_msc;
+                m.xs_table.table_type = ImportTableType::lambda;
+                m.xs_table.x_units = ImportUnits::mev;
+                m.xs_table.y_units = ImportUnits::mev_2_per_cm;
+                for (double y : {cfg.msc_scaled_xs, 1e-12 * cfg.msc_scaled_xs})
+                {
+                    ImportPhysicsVector v;
+                    v.vector_type = ImportPhysicsVectorType::log;
+                    for (int k = 0; k <= 8; ++k)
+                    {
+                        v.x.push_back(1e-4 * std::pow(10.0, k));
+                        v.y.push_back(y);
+                    }
+                    m.xs_table.physics_vectors.push_back(v);
+                }
+                mm.push_back(m);
             }
+            msc = std::make_shared<UrbanMscParams>(*P->particle, *P->material, mm);
+        }
+        if (cfg.along == AlongStep::neutral)
+        {
+            along = std::make_shared<AlongStepNeutralAction>(action_reg->next_id());
+        }
+        else if (!has_field(cfg.along))
+        {
+            along = AlongStepGeneralLinearAction::from_params(
+                action_reg->next_id(), *P->material, *P->particle, msc, has_fluct(cfg.along));
+        }
+        else
+        {
+            UniformFieldParams fp;
+            fp.field = {0, 0, cfg.field_tesla * units::tesla};
+            along = AlongStepUniformMscAction::from_params(
+                action_reg->next_id(), *P->material, *P->particle, fp, msc, has_fluct(cfg.along));
         }
         P->along_step_id = along->action_id();
         action_reg->insert(std::const_pointer_cast<CoreStepActionInterface>(
